@@ -71,6 +71,8 @@ FIXED = [
  ('F1', ['C02', 'C03'], 'euclidean C kernels squared max_dist/max_step/penalty', 'fix: the euclidean-inner-distance C kernels squared'),
  ('F4/F5', ['C03', 'C09'], 'dtw_warping_paths_ndim_euclidean used the squared-variant bound and rooted only_ub', 'fix: dtw_warping_paths_ndim_euclidean pruned'),
  ('F36', ['C02', 'C10'], 'psi_1e candidate read through stale curidx', 'fix: C dtw_distance read the psi_1e candidate'),
+ ('F49', ['C17'], "dp returned inf for an empty second sequence: needleman_wunsch('AB', '') gave -inf instead of -2", 'fix: dp returned infinity for an empty second sequence'),
+ ('F50', ['C17'], "Needleman-Wunsch border charged 1 per gap whatever the gap cost of make_substitution_fn: gap=0.5, 'A' vs 'BA' gave 0 instead of 0.5", 'fix: Needleman-Wunsch border ignored the gap cost'),
  ('F3', ['C03', 'C04'], 'dtw_warping_paths_ndim compared squared cost with unsquared max_dist', 'fix: dtw_warping_paths_ndim compared the squared'),
 ]
 
@@ -92,6 +94,8 @@ def main():
         findings.append({'id': hit[0], 'properties': sorted(c['properties']), 'rule': c['rule'], 'file': c['file'], 'function': c['function'],
                          'construct_key': c['construct_key'], 'what_fails': c['what_fails'][:400], 'witness': hit[1],
                          'static_witness': c.get('witness')})
+        if c.get('failset'):
+            findings[-1]['failset'] = c['failset']
     fixed = []
     for fid, props_, what, subj in FIXED:
         commits = [l.split()[0] for l in log if l.split(' ', 1)[1].startswith(subj)]
@@ -100,7 +104,7 @@ def main():
         for p in props_:
             fixed.append('fixed: property=%s %s %s [%s]' % (p, commits[0] if commits else '?', what, fid))
     out = {'comment': 'Genuine defects of wannesm/dtaidistance found by the static checks and NOT repaired (findings) or repaired by a fix: commit (fixed). '
-                      'Committed by hand; never written by a check at run time. Identity of a finding = (property, rule, file, function, construct_key).',
+                      'Committed by hand; never written by a check at run time. Identity of a finding = (property, rule, file, function, construct_key) and, where recorded, `failset`: the fingerprint of the set of small inputs on which the construct disagrees with its specification (a change that makes other inputs fail is reported as a new violation).',
            'findings': findings, 'fixed': fixed}
     json.dump(out, open('/verif/known_findings.json', 'w'), indent=1)
     print('findings', len(findings), 'fixed lines', len(fixed), 'untriaged', len(untriaged))
